@@ -39,6 +39,9 @@
 (* for sparse contexts (documented CobaException); NaN in Impute data; with*)
 (* the indicator, a None inside the window of a feature that is not        *)
 (* imputable (dense and scalar code paths disagree, the property is silent)*)
+(* ; "median" for a feature with missing values whose window holds strings *)
+(* only (statistics.median of an odd number of strings is a string: whether*)
+(* such a feature is "imputable" is not stated).                           *)
 (*                                                                         *)
 (* Generator / oracle use: every initial state is one case, its successor  *)
 (* prints the input contexts and the expected contexts (Emit).  The other  *)
@@ -109,6 +112,7 @@ Missing(c)     == c.t \in {"none", "nan"}
 Present(col, using) == LET w == Win(col, using)
                        IN  SelectSeq([i \in DOMAIN w |-> Zero(w[i])], LAMBDA c : ~Missing(c))
 AllNum(P)      == \A i \in DOMAIN P : P[i].t = "num"
+AllStr(P)      == \A i \in DOMAIN P : P[i].t = "str"
 Ints(P)        == [i \in DOMAIN P |-> P[i].v]
 
 -----------------------------------------------------------------------------
@@ -218,6 +222,7 @@ InDomain(x) ==
   /\ (x.f = "impute") =>
        /\ x.ind => Len(x.stats) = 1
        /\ x.ind => \A j \in DOMAIN x.cols : HasNone(Win(x.cols[j], x.using)) => Imputable(x.cols[j], x.stats[1], x.using)
+       /\ ("median" \in Range(x.stats)) => \A j \in DOMAIN x.cols : HasNone(x.cols[j]) => ~AllStr(Present(x.cols[j], x.using))
 
 TwoCols(A, n) == UNION {{<<a, b>>, <<b, a>>} : a \in ColsOf(A, n), b \in Comp(n)}
 
